@@ -32,7 +32,9 @@ static void enter_r(const char* who) { ++readers; if (writers) vf_fail("%s: read
 static void leave_r() { --readers; }
 
 template <class M, bool RW> struct Run { M m; using A = Ad<M, RW>; using L = typename M::scoped_lock;
-    void op(char c) { L l; Ent e; e.thread = vf_self(); e.op = c; e.req_steps = vf_steps(); e.blocking = false; e.qpos = 0; int nb = vf_nblocks();
+    void op(char c) { L l; op(c, l); }
+    // reuse=1: every thread keeps ONE scoped_lock object for all its sections (the queue node inside it is reused after release)
+    void op(char c, L& l) { Ent e; e.thread = vf_self(); e.op = c; e.req_steps = vf_steps(); e.blocking = false; e.qpos = 0; int nb = vf_nblocks();
         switch (c) {
         case 'W': A::acquire(l, m, true); e.blocking = true; e.writer = true; e.entry_stamp = vf_stamp(); entries.push_back(e); enter_w("lock"); leave_w(); l.release(); break;
         case 'R': A::acquire(l, m, false); e.blocking = true; e.writer = false; e.entry_stamp = vf_stamp(); entries.push_back(e); enter_r("lock_shared"); vf_point(); leave_r(); l.release(); break;
@@ -49,7 +51,8 @@ template <class M, bool RW> struct Run { M m; using A = Ad<M, RW>; using L = typ
         int expect_writes = 0; for (auto& s : progs) for (char c : s) if (c == 'W' || c == 'U' || c == 'D') expect_writes++;
         const void* tail = tail_addr(); if (tail) vf_watch(tail, sizeof(void*));
         vf_liveness(1);
-        auto ids = gated((int)progs.size(), nullptr, [&](int i) { for (char c : progs[i]) op(c); });
+        bool reuse = vf_param_int("reuse", 0) != 0;
+        auto ids = gated((int)progs.size(), nullptr, [&](int i) { if (reuse) { L* l = new L(); for (char c : progs[i]) op(c, *l); } else for (char c : progs[i]) op(c); });
         open_window_and_join(ids);
         vf_liveness(0);
         int tries = 0; for (size_t i = 0; i + 1 < outcome.size(); i++) if (outcome[i] == 't' && outcome[i + 1] == '1') tries++;
